@@ -58,13 +58,20 @@ func UtxoValidateOutsideValidityIntervalUtxo(
 	_ common.ProtocolParameters,
 ) error {
 	validityIntervalStart := tx.ValidityIntervalStart()
-	if validityIntervalStart == 0 || slot >= validityIntervalStart {
-		return nil
+	if validityIntervalStart != 0 && slot < validityIntervalStart {
+		return OutsideValidityIntervalUtxoError{
+			ValidityIntervalStart: validityIntervalStart,
+			Slot:                  slot,
+		}
 	}
-	return OutsideValidityIntervalUtxoError{
-		ValidityIntervalStart: validityIntervalStart,
-		Slot:                  slot,
+	// The upper bound (invalid hereafter) is exclusive; zero means no bound
+	if ttl := tx.TTL(); ttl != 0 && slot >= ttl {
+		return shelley.ExpiredUtxoError{
+			Ttl:  ttl,
+			Slot: slot,
+		}
 	}
+	return nil
 }
 
 func UtxoValidateInputSetEmptyUtxo(
